@@ -99,18 +99,18 @@ Section Ids.
 Variable now : time.
 Variable ev : env.
 
-Lemma psig_ids_head : forall ps s, load_sig now ev ps = Ok s -> exists tl, psig_ids ps = sig_id s :: tl.
+Lemma psig_ids_head : forall lim ps s, load_sig now ev lim ps = Ok s -> exists tl, psig_ids ps = sig_id s :: tl.
 Proof.
-  intros ps s H. pose proof (load_sig_id now ev _ _ H) as E.
+  intros lim ps s H. pose proof (load_sig_id now ev _ _ _ H) as E.
   destruct ps as [pent pkind psend pstart pattrs pbody]. cbn in H. bind_inv H.
   destruct pent as [e|]; [|discriminate]. unfold psig_key in E; cbn in E. cbn. rewrite E. eauto.
 Qed.
 
 (* everything below a loaded signal was registered for the duplicate check *)
-Lemma load_sig_ids_incl : forall ps s, load_sig now ev ps = Ok s -> incl (sig_ids s) (psig_ids ps).
+Lemma load_sig_ids_incl : forall ps lim s, load_sig now ev lim ps = Ok s -> incl (sig_ids s) (psig_ids ps).
 Proof.
-  induction ps using psig_ind'; intros s Hl.
-  - destruct (psig_ids_head _ _ Hl) as (tl & Etl).
+  induction ps using psig_ind'; intros lim s Hl.
+  - destruct (psig_ids_head _ _ _ Hl) as (tl & Etl).
     cbn in Hl. bind_inv Hl.
     destruct b as [|t u|en|? ? ? ? ?]; try discriminate; try contradiction.
     + destruct (negb _); [discriminate|]. destruct (find_key type_key t _); [|discriminate].
@@ -118,13 +118,14 @@ Proof.
       intros x [<-|[]]. apply in_eq.
     + destruct (negb _); [discriminate|]. destruct (find_key enum_key en _); [|discriminate].
       bind_inv Hl. inversion Hl; subst. rewrite Etl. intros x [<-|[]]. apply in_eq.
-  - destruct (psig_ids_head _ _ Hl) as (tl & Etl).
+  - destruct (psig_ids_head _ _ _ Hl) as (tl & Etl).
     assert (Etl' : tl = flat_map psig_ids (select sigs (first_flags (map psig_key sigs) []))).
     { cbn in Etl. destruct e as [e0|]; cbn in Etl.
       - rewrite flat_flagged_select in Etl. inversion Etl; reflexivity.
       - cbn in Hl. discriminate. }
     cbn in Hl. apply bind_ok in Hl. destruct Hl as (ent & Hent & Hl).
     destruct (negb _); [discriminate|].
+    destruct (z >? lim); [discriminate|]. destruct (negb (Z.of_nat (List.length groups) =? c)); [discriminate|].
     destruct (c <? 0) eqn:E1; [discriminate|]. destruct (c =? 0) eqn:E2; [discriminate|].
     destruct (z <? 0) eqn:E3; [discriminate|]. destruct (z =? 0) eqn:E4; [discriminate|].
     apply bind_ok in Hl. destruct Hl as (children & Hchildren & Hl).
@@ -147,12 +148,12 @@ Proof.
     rewrite Ey, sig_ids_set_pos in Hx.
     (* c0 comes from a selected saved signal *)
     rewrite Forall_forall in H.
-    assert (G2 : forall l l', Forall2 (fun a b => load_sig now ev a = Ok b) l l' ->
+    assert (G2 : forall l l', Forall2 (fun a b => load_sig now ev z a = Ok b) l l' ->
                               (forall q, In q l -> In q sigs) -> In c0 l' ->
                               exists q, In q l /\ incl (sig_ids c0) (psig_ids q)).
     { induction 1 as [|q y' l l' Hqy HF IHF]; intros Hsub Hin; [contradiction|].
       destruct Hin as [<-|Hin].
-      - exists q; split; [apply in_eq|]. apply (H q); auto. apply Hsub; apply in_eq.
+      - exists q; split; [apply in_eq|]. apply (H q (Hsub q (in_eq _ _)) z); auto.
       - destruct IHF as (q' & Hq' & Hi); auto. intros; apply Hsub; now right. exists q'; split; auto. now right. }
     destruct (G2 _ _ Hch) as (q & Hq & Hi); auto. { intros q Hq. eapply select_In; eauto. }
     apply in_flat_map. exists q; split; auto.
@@ -189,17 +190,17 @@ Section TreeIds.
 Variable now : time.
 Variable ev : env.
 
-Theorem load_sig_tree_ids : forall ps s,
-  load_sig now ev ps = Ok s -> NoDup (psig_ids ps) -> tree_ids_okb s = true.
+Theorem load_sig_tree_ids : forall ps lim s,
+  load_sig now ev lim ps = Ok s -> NoDup (psig_ids ps) -> tree_ids_okb s = true.
 Proof.
-  induction ps using psig_ind'; intros s Hl Hnd.
+  induction ps using psig_ind'; intros lim s Hl Hnd.
   - cbn in Hl. bind_inv Hl.
     destruct b as [|t u|en|? ? ? ? ?]; try discriminate; try contradiction.
     + destruct (negb _); [discriminate|]. destruct (find_key type_key t _); [|discriminate].
       destruct (_ && _); [discriminate|]. bind_inv Hl. inversion Hl; subst. reflexivity.
     + destruct (negb _); [discriminate|]. destruct (find_key enum_key en _); [|discriminate].
       bind_inv Hl. inversion Hl; subst. reflexivity.
-  - destruct (psig_ids_head now ev _ _ Hl) as (tl & Etl).
+  - destruct (psig_ids_head now ev _ _ _ Hl) as (tl & Etl).
     assert (Etl' : tl = flat_map psig_ids (select sigs (first_flags (map psig_key sigs) []))).
     { cbn in Etl. destruct e as [e0|]; cbn in Etl.
       - rewrite flat_flagged_select in Etl. inversion Etl; reflexivity.
@@ -209,6 +210,7 @@ Proof.
     pose proof Hl as Hl0.
     cbn in Hl. apply bind_ok in Hl. destruct Hl as (ent & Hent & Hl).
     destruct (negb _); [discriminate|].
+    destruct (z >? lim); [discriminate|]. destruct (negb (Z.of_nat (List.length groups) =? c)); [discriminate|].
     destruct (c <? 0) eqn:E1; [discriminate|]. destruct (c =? 0) eqn:E2; [discriminate|].
     destruct (z <? 0) eqn:E3; [discriminate|]. destruct (z =? 0) eqn:E4; [discriminate|].
     apply bind_ok in Hl. destruct Hl as (children & Hchildren & Hl).
@@ -222,7 +224,7 @@ Proof.
       rewrite E0 in Hy0. contradiction. }
     rewrite Forall_forall in H.
     (* per child: its source *)
-    assert (Hsrc : forall c0, In c0 children -> exists q, In q S /\ load_sig now ev q = Ok c0).
+    assert (Hsrc : forall c0, In c0 children -> exists q, In q S /\ load_sig now ev z q = Ok c0).
     { intros c0 Hc0. eapply Forall2_In_r in Hch; eauto. }
     assert (Hsub : forall c0, In c0 children -> incl (sig_ids c0) tl).
     { intros c0 Hc0. destruct (Hsrc _ Hc0) as (q & Hq & Hlq). subst tl.
@@ -250,9 +252,8 @@ Proof.
     + apply forallb_forall. intros g Hg. apply forallb_forall. intros y Hy.
       destruct (I y) as (c0 & p & Hc0 & Ey); [apply concat_In; eauto|].
       rewrite Ey, tree_ids_okb_set_pos.
-      destruct (Hsrc _ Hc0) as (q & Hq & Hlq). apply (H q); auto.
-      * eapply select_In; eauto.
-      * subst tl. eapply NoDup_flat_map_elem; eauto.
+      destruct (Hsrc _ Hc0) as (q & Hq & Hlq). apply (H q (select_In _ _ _ Hq) z); auto.
+      subst tl. eapply NoDup_flat_map_elem; eauto.
 Qed.
 
 End TreeIds.
